@@ -21,7 +21,7 @@ ASSUMPTIONS = [
     "port names are lower case as documented; numeric ports 1-14; links are slot numbers or IPv4 dotted quads without leading zeros",
     "the reference grammar is vf/refpath.ref_parse_path, written from docs/getting_started.rst (Creating a Driver)",
 ]
-FLOORS = {"quick": {"valid": 5000, "corrupt": 3000, "driver": 200, "shortcut": 500}, "thorough": {"valid": 200000, "corrupt": 100000, "driver": 5000}}
+FLOORS = {"quick": {"valid": 5000, "corrupt": 3000, "driver": 200, "shortcut": 500}, "thorough": {"valid": 150000, "corrupt": 80000, "driver": 4000}}
 
 SEPS = ["/", "\\", ","]
 
